@@ -673,19 +673,38 @@ func FieldIndex(t types.Type, name string) int { return load.FieldIndex(t, name)
 func (in *Interp) StructVal(t types.Type, fields map[string]Val) Val {
 	a := in.Zero(t).(*Agg)
 	for name, v := range fields {
-		if i := FieldIndex(t, name); i >= 0 {
-			a.Elems[i] = v
+		path := load.FieldSteps(t, name)
+		cur := a
+		for k, i := range path {
+			if k == len(path)-1 {
+				cur.Elems[i] = v
+				break
+			}
+			next, ok := cur.Elems[i].(*Agg)
+			if !ok {
+				break
+			}
+			cur = next
 		}
 	}
 	return a
 }
 
-// FieldOf reads a named field from a struct object.
+// FieldOf reads a named field from a struct object (looking through embedded structs).
 func (in *Interp) FieldOf(o *Object, name string) Val {
-	if i := FieldIndex(o.Type, name); i >= 0 {
-		return o.Val.(*Agg).Elems[i]
+	var cur Val = o.Val
+	path := load.FieldSteps(o.Type, name)
+	if path == nil {
+		return nil
 	}
-	return nil
+	for _, i := range path {
+		a, ok := cur.(*Agg)
+		if !ok || i >= len(a.Elems) {
+			return nil
+		}
+		cur = a.Elems[i]
+	}
+	return cur
 }
 
 func (d *FieldDom) PathString() string {
